@@ -416,8 +416,10 @@ pub fn validate_spans(spans: &mut [DataSpan]) -> Result<()> {
         return Ok(());
     }
 
-    // Sort by offset
-    spans.sort_by_key(|s| s.offset);
+    // Sort by offset; at equal offsets the shorter span goes first, so that an
+    // empty span sharing its offset with a non-empty one is never reported as
+    // an overlap (the verdict must not depend on the caller's input order).
+    spans.sort_by_key(|s| (s.offset, s.length));
 
     // Check adjacent pairs for overlap
     for i in 0..spans.len() - 1 {
